@@ -26,6 +26,8 @@ FIXED = [
  ("C16", "recovery_blob/stale-blob-offset", "fix: recovery_blob rewrites", "recovery_blob(skip=true) copies headers with their old blob_offset: records after the skipped one are unreadable by the storage"),
  ("C12", "sync/unsynced-above-limit-at-idle", "fix: background sync re-checks", "a write finishing while the fsync task holds its in-progress flag is neither covered by that sync nor re-triggers one: bytes above the limit stay un-synced at idle"),
  ("C12", "sync/unsynced-above-limit-at-idle", "fix: a sync only marks", "bytes of an append still in flight when sync_all runs are counted as synced (size is reserved before the write)"),
+ ("C12", "sync/unsynced-above-limit-at-idle", "fix: a sync request that arrives", "a sync request is dropped while the previous sync task is not yet reported finished although it already took its last look at the un-synced bytes (schedule-dependent; found by the thorough tier)"),
+ ("C13", "bg/dump-not-completed", "fix: an index dump request that arrives", "an index dump requested by try_close_active_blob while a dump task is still running is dropped: the closed blob keeps no index file (schedule-dependent; found by the thorough tier)"),
  ("C12", "sync/explicit-fsyncdata-noop", "fix: Storage::fsyncdata always", "explicit fsyncdata() issues no sync below the dirty-byte limit"),
 ]
 OPEN = [
